@@ -151,6 +151,7 @@ def gen_cases(tier, seed):
     for i, c in enumerate(cases):
         c['id'] = i
         c['flagform'] = rng.choice(('py', 'py', 'numpy-bool', 'int'))     # the flag is a truth value, however it is spelled
+        c['alpha_dtype'] = rng.choice(('float64', 'float64', 'float32', 'float16'))
     return cases
 
 
@@ -160,6 +161,9 @@ def call_impl(lentil, c):
     f = terms_to_complex(c['f'], N)
     ar, ac = g['pr'] / g['qr'], g['pc'] / g['qc']
     alpha = ar if (c['scalar_args'] and ar == ac) else (ar, ac)
+    # dyadic alphas are the same numbers in half, single and double precision: the result may not depend on the container's dtype
+    if c.get('alpha_dtype', 'float64') != 'float64' and all(q_ & (q_ - 1) == 0 for q_ in (g['qr'], g['qc'])):
+        alpha = np.array([ar, ac], dtype=c['alpha_dtype'])
     shape = g['M'] if (c['scalar_args'] and g['M'] == g['K']) else (g['M'], g['K'])
     shift = (g['sr'] / g['sq'], g['sc'] / g['sq'])
     out = None
@@ -180,7 +184,8 @@ def sig_of(c, kind):
     g = c['g']
     return {'fn': 'dft2' if c['k'] == 'fwd' else 'idft2', 'kind': kind, 'unitary': c['unitary'], 'out': c['out'],
             'aniso': (g['pr'] * g['qc'] != g['pc'] * g['qr']), 'shift': bool(g['sr'] or g['sc']),
-            'offset': bool(g['or'] or g['oc']), 'full': c['full'], 'flag_form': c.get('flagform', 'py')}
+            'offset': bool(g['or'] or g['oc']), 'full': c['full'], 'flag_form': c.get('flagform', 'py'),
+            'alpha_dtype': c.get('alpha_dtype', 'float64') if all(q_ & (q_ - 1) == 0 for q_ in (g['qr'], g['qc'])) else 'float64'}
 
 
 def check_case(ctx, lentil, c, e):
